@@ -400,6 +400,9 @@ class GenA:
             rows = [f"r{i}" for i in range(1, nr + 1)] if rng.random() < 0.5 else [chr(ord('h') + i) for i in range(nr)]
         elif r < 0.31 and nr <= 26:
             rows = case_pairs(nr, 'a' if nr > 20 else 'p')
+        elif r < 0.35:
+            # labels that differ only in surrounding blanks: 'k', 'k ', ' k', ' k ', 'l', ...
+            rows = [(' ' if i % 4 >= 2 else '') + chr(ord('k') + (i // 4) % 15) + ('' if i // 60 == 0 else str(i // 60)) + (' ' if i % 2 else '') for i in range(nr)]
         elif r < 0.37 and 2 <= nr <= 26:
             # the default letters, in another order (row 'A' is not the first row)
             rows = [chr(ord('A') + i) for i in range(nr)]
